@@ -161,6 +161,144 @@ def compare_parts(e):
     return None
 
 
+_FLIP = {ast.Eq: ast.Eq, ast.NotEq: ast.NotEq, ast.Lt: ast.Gt, ast.Gt: ast.Lt, ast.LtE: ast.GtE, ast.GtE: ast.LtE}
+
+
+def cmp_views(e):
+    """both readings of a single comparison: [(left, optype, right), (right, flipped optype, left)]"""
+    cp = compare_parts(e)
+    if not cp:
+        return []
+    out = [(cp[0], type(cp[1]), cp[2])]
+    if type(cp[1]) in _FLIP:
+        out.append((cp[2], _FLIP[type(cp[1])], cp[0]))
+    return out
+
+
+_REL = {ast.Eq: ('eq', True), ast.NotEq: ('eq', False), ast.Is: ('is', True), ast.IsNot: ('is', False),
+        ast.In: ('in', True), ast.NotIn: ('in', False)}
+
+
+def relation(test):
+    """(kind, left, right, label) for a test that is a single ==/!=/is/is not/in/not in comparison, possibly under
+    `not`s: *label* ('true'/'false') is the outcome of the test on which `left <kind> right` HOLDS.  None otherwise."""
+    pos = True
+    while isinstance(test, ast.UnaryOp) and isinstance(test.op, ast.Not):
+        test, pos = test.operand, not pos
+    cp = compare_parts(test)
+    if not cp or type(cp[1]) not in _REL:
+        return None
+    kind, p = _REL[type(cp[1])]
+    return kind, cp[0], cp[2], 'true' if p == pos else 'false'
+
+
+def truth(test):
+    """(core, label): the test with leading `not`s stripped, and the outcome of the written test on which core is TRUE"""
+    pos = True
+    while isinstance(test, ast.UnaryOp) and isinstance(test.op, ast.Not):
+        test, pos = test.operand, not pos
+    return test, 'true' if pos else 'false'
+
+
+def core(t):
+    """the condition a test node decides, leading `not`s stripped"""
+    return truth(t.ast)[0]
+
+
+def holds_region(g, t, value=True, skip_labels=('exc',)):
+    """nodes control-dependent on core(t) being *value*, however the test is written"""
+    lab = truth(t.ast)[1]
+    return guard_region(g, t, lab if value else other(lab), skip_labels=skip_labels)
+
+
+_RELTXT = {'eq': '==', 'is': 'is', 'in': 'in'}
+
+
+def atom_key(e, value=True):
+    """normal form (text, value) of an atomic condition having truth value *value*: leading `not`s and negated
+    comparison operators are folded into the value, == operands are put in text order"""
+    rel = relation(e)
+    if rel:
+        kind, l, r, lab = rel
+        a, b = norm(l), norm(r)
+        if kind == 'eq' and a > b:
+            a, b = b, a
+        return '%s %s %s' % (a, _RELTXT[kind], b), (lab == 'true') == value
+    c, lab = truth(e)
+    return norm(c), (lab == 'true') == value
+
+
+def expand_condition(e, value=True):
+    """atoms implied by `e` having truth value *value* (conjunctions under true / disjunctions under false are split)"""
+    c, lab = truth(e)
+    v = (lab == 'true') == value
+    if isinstance(c, ast.BoolOp) and ((isinstance(c.op, ast.And) and v) or (isinstance(c.op, ast.Or) and not v)):
+        out = set()
+        for x in c.values:
+            out |= expand_condition(x, v)
+        return out
+    return {atom_key(c, v)}
+
+
+def conditions(g, node, skip_labels=('exc',)):
+    """the atomic conditions (text, value) the node is control-dependent on, however the tests are written
+    (`if a and b`, nested ifs, `not`, != / is not ...)"""
+    out = set()
+    for t in g.nodes:
+        if t.kind != 'test' or t.ast is None:
+            continue
+        for lab in ('true', 'false'):
+            if node in guard_region(g, t, lab, skip_labels=skip_labels):
+                out |= expand_condition(t.ast, lab == 'true')
+    return out
+
+
+def eval_conditions(g, node, sub):
+    """conditions under which the sub-expression *sub* of *node* is evaluated: the node's own conditions plus the
+    conjuncts that short-circuit before it when the node is an `a and b and ...` test"""
+    out = conditions(g, node)
+    e = node.ast if node.kind == 'test' else None
+    while isinstance(e, ast.BoolOp) and isinstance(e.op, ast.And):
+        nxt = None
+        for v in e.values:
+            if any(x is sub for x in ast.walk(v)):
+                nxt = v
+                break
+            out |= expand_condition(v, True)
+        e = nxt
+    return out
+
+
+def relation_tests(g, kind, lp, rp):
+    """[(test node, outcome on which the relation HOLDS)] for tests that are a single `kind` comparison ('eq','is','in')
+    between an operand satisfying lp and one satisfying rp (either order for eq), however written (!=, not ..., flipped)"""
+    out = []
+    live = g.live_nodes()
+    for t in g.nodes:
+        if t.kind != 'test' or t.ast is None or t not in live:
+            continue
+        r = relation(t.ast)
+        if not r or r[0] != kind:
+            continue
+        if (lp(r[1]) and rp(r[2])) or (kind == 'eq' and lp(r[2]) and rp(r[1])):
+            out.append((t, r[3]))
+    return out
+
+
+def other(label):
+    return 'false' if label == 'true' else 'true'
+
+
+def call_arg(call, name, pos):
+    """the expression bound to parameter *name* (position *pos* after self) of a call, however it was passed; None if absent"""
+    for k in call.keywords:
+        if k.arg == name:
+            return k.value
+    if pos is not None and len(call.args) > pos and not any(isinstance(a, ast.Starred) for a in call.args[:pos + 1]):
+        return call.args[pos]
+    return None
+
+
 def is_name(e, name):
     return isinstance(e, ast.Name) and e.id == name
 
@@ -202,6 +340,12 @@ def only(items, what):
     if len(items) != 1:
         raise AnalysisError('expected exactly one %s, found %d' % (what, len(items)))
     return items[0]
+
+
+def mode_mismatch_conditions(var, enc_is_none=True):
+    """the path condition `self.encoding is None and not isinstance(<var>, bytes)` as atoms
+    (enc_is_none=False: `self.encoding is not None and isinstance(<var>, bytes)`)"""
+    return {('self.encoding is None', enc_is_none), ('isinstance(%s, bytes)' % var, not enc_is_none)}
 
 
 def is_bytes_mode_text_guard(test, var, enc_is_none=True):
